@@ -737,6 +737,7 @@ package framework
 //@     invariant 0 - 1 <= rangeindex && rangeindex < len(s.ssn.eventHandlers)
 //@     invariant allocEvents() - old(allocEvents()) <= rangeindex + 1
 //@     invariant s.operations == old(s.operations)
+//@     invariant forall j int :: 0 <= j && j < len(s.operations) ==> s.operations[j] == old(s.operations[j])
 //@     # C14 (observed inside an event handler) / C08: when the allocation handlers fire, the task points at `hostname` and
 //@     # that node books it under the status and GPU groups the task shows (job first, then node, then handlers)
 //@     invariant task.NodeName == hostname && nodeAgrees(s.ssn.ClusterInfo.Nodes[hostname], task)
